@@ -14,7 +14,7 @@
           the recursion cuts every midpoint's latitude by up to 1e-10 degrees before taking its row;
      skipped — the end voxels are more than max_span cells apart (cost guard; the entry itself recomputes the span).
    Outside the judged domain (non-finite coordinates, |alt| > 2^25, |lon| > 180, |lat| > 85.0511287798): bad_case. *)
-From Coq Require Import ZArith String List Bool Floats QArith.
+From Coq Require Import ZArith String List Bool Floats QArith Arith.
 From SID Require Import Base Str Ids Wire F64 ExactRef PointF Line LineCheck.
 Import ListNotations.
 Close Scope Q_scope.
@@ -168,6 +168,56 @@ Open Scope string_scope.
     | _, _ => bad_case
     end.
 
+  (* ---- histories: several calls of the exported functions in one case (args: [reuse the caller's point objects; mutate the
+     returned slices between calls; steps], a step is [false; p1; p2; h; v] or [true; p1; p2; zoom]; obs: one result per step).
+     The model is a pure function of a step's own arguments (Line.history_answers_independent), so every step is judged exactly
+     like a standalone call; the case passes iff every step passes. ---- *)
+  Definition step_call (st : val) : option (bool * list val) :=
+    match st with
+    | VL [VB false; p1; p2; VZ h; VZ v] => Some (false, [p1; p2; VZ h; VZ v])
+    | VL [VB true; p1; p2; VZ z] => Some (true, [p1; p2; VZ z])
+    | _ => None
+    end.
+  Definition step_verdict (oracle : oracle_t) (st obs : val) : verdict :=
+    match step_call st with Some (sid, a) => d_line oracle sid a obs | None => bad_case end.
+  Definition step_verdicts (oracle : oracle_t) (steps obs : list val) : list verdict :=
+    map (fun so => step_verdict oracle (fst so) (snd so)) (combine steps obs).
+  Definition is_class (c : string) (v : verdict) : bool := String.eqb (v_class v) c.
+  Definition merge_verdicts (vs : list verdict) : verdict :=
+    if existsb (is_class "bad-case") vs then bad_case
+    else if existsb (is_class "skipped") vs then mkv true true "skipped" VNil
+    else let corr := forallb v_corr vs in
+         let prop := forallb v_prop vs in
+         let unexcused := existsb (fun v => negb (v_prop v) && is_class "-" v) vs in
+         let cls := if prop || unexcused || negb corr then "-"
+                    else match find (fun v => negb (v_prop v)) vs with Some v => v_class v | None => "-" end in
+         mkv corr prop cls (VL (map v_model vs)).
+  Definition d_history (oracle : oracle_t) (args : list val) (obs : val) : verdict :=
+    match args, obs with
+    | [VB _; VB _; VL steps], VL os =>
+        if Nat.eqb (List.length steps) (List.length os) then merge_verdicts (step_verdicts oracle steps os) else bad_case
+    | _, _ => bad_case
+    end.
+
+  Lemma combine_snoc {A B} (l : list A) (k : list B) a b : List.length l = List.length k ->
+    combine (l ++ [a]) (k ++ [b]) = (combine l k ++ [(a, b)])%list.
+  Proof.
+    revert k. induction l as [|x l IH]; intros [|y k]; cbn; try discriminate; [reflexivity|].
+    intros [= E]. now rewrite IH.
+  Qed.
+  (* the verdict of a step does not depend on the steps before it: after ANY history it is the standalone verdict *)
+  Theorem step_verdict_independent oracle pre opre st o : List.length pre = List.length opre ->
+    nth_error (step_verdicts oracle (pre ++ [st]) (opre ++ [o])) (List.length pre) = Some (step_verdict oracle st o).
+  Proof.
+    intros E. unfold step_verdicts. rewrite combine_snoc by exact E. rewrite map_app.
+    rewrite nth_error_app2; rewrite map_length, combine_length, <- E, Nat.min_id; [|apply Nat.le_refl].
+    rewrite Nat.sub_diag. reflexivity.
+  Qed.
+  (* a history case passes (prop) exactly when every step passes, provided no step is outside the judged domain or over-size *)
+  Lemma merge_prop vs : existsb (is_class "bad-case") vs = false -> existsb (is_class "skipped") vs = false ->
+    v_prop (merge_verdicts vs) = forallb v_prop vs.
+  Proof. intros H1 H2. unfold merge_verdicts. rewrite H1, H2. reflexivity. Qed.
+
 Definition table_C06 : table :=
   [("GetExtendedSpatialIdsOnLine", fun o => d_line o false); ("GetSpatialIdsOnLine", fun o => d_line o true);
-   ("LineSidVsExt", d_sid_vs_ext)].
+   ("LineSidVsExt", d_sid_vs_ext); ("LineHistory", d_history)].
